@@ -213,7 +213,10 @@ def _install_id():
         root = spTree.getroottree().getroot()
         from lxml import etree
 
-        return set(etree.XPath("//p:cNvPr[not(ancestor::p:oleObj)]/@id", namespaces={"p": "http://schemas.openxmlformats.org/presentationml/2006/main"})(root))
+        # "every id already used in its slide-like part": the shape ids, and every other numeric @id the part carries
+        # (p:cTn of an animation, a:cNvPr inside a locked canvas ...) - what python-pptx's own allocator looks at (//@id)
+        ids = etree.XPath("//*[not(ancestor-or-self::p:oleObj)]/@id", namespaces={"p": "http://schemas.openxmlformats.org/presentationml/2006/main"})(root)
+        return {i for i in ids if i.isdigit()} | set(etree.XPath("//p:cNvPr[not(ancestor::p:oleObj)]/@id", namespaces={"p": "http://schemas.openxmlformats.org/presentationml/2006/main"})(root))
 
     def wrap_shape_id(cls, label):
         orig = cls.__dict__["_next_shape_id"].fget
